@@ -10,7 +10,8 @@ THEOREMS = {
         "pipe_fifo", "pipe_complete", "pipe_writer_never_waits_on_reader",
         "bf_pipe_refines", "bf_counter_inv", "bf_no_early_exit", "bf_exactly_once", "bf_measure", "bf_terminates",
         "bf_live_ctx_error_recorded", "bf_error_cancels", "bf_return_joins_workers",
-        "limit_skip_window", "range_partition_exact", "c17_partial", "c17_full_of_seq_paths",
+        "limit_skip_window", "range_partition_exact", "seq_helper_eq_spec", "traversePaths_eq_spec", "terminals_eq_spec",
+        "acyclicNodes_eq_spec", "intermediaryPaths_eq_spec", "c17_partial", "c17_full_of_seq_paths",
         # theorems about the protocol BEFORE the repair of finding F14 (cfg.fixed = false)
         "bf_terminates_partial_old", "bf_terminates_refuted_old", "c17_full_old_refuted"]],
     "Dawgs.Tie.C17Order": [TIE + t for t in [
@@ -18,7 +19,8 @@ THEOREMS = {
         "order_inc_before_submit", "order_dec_after_loop", "order_completion_after_dec",
         "order_defers_and_capacity", "order_coordinator", "order_error_path", "order_pipe"]],
 }
-STATED_NOT_PROVED = ["Dawgs.C17.Props.C17_seq_paths_full (stack DFS of ops.Traversal = recursive path spec + window): exercised by the c17seq tie only"]
+STATED_NOT_PROVED = ["Dawgs.C17.Props.C17_seq_paths_full (the DFS candidate order of TraversePaths = the recursively defined list of maximal acyclic paths): "
+                     "exercised by the c17seq tie only; the filter-then-window equation itself is proved for every helper (seq_helper_eq_spec)"]
 
 
 def regen(ctx):
@@ -48,7 +50,10 @@ def nontrivial(ops, impl):
         subs = sum(o.startswith("sub") for o in body)
         reads = sum(o.startswith(("read", "tryread")) for o in body)
         return subs >= 2 and (reads >= 1 or "cancel" in body)
-    return any(o.split()[0] in ("paths", "terminals", "nodes", "intermediary") for o in body) and sum(o.startswith("edge") for o in body) >= 2
+    # sequential helpers: >= 2 edges and a query that has a skip/limit window or a filter that rejects something
+    qs = [o.split() for o in body if o.split()[0] in ("paths", "terminals", "nodes", "intermediary")]
+    return sum(o.startswith("edge") for o in body) >= 2 and any(
+        len(q) == 8 and (int(q[3]) > 0 or int(q[4]) > 0 or any(len(f) > 1 for f in q[5:8])) for q in qs)
 
 
 def finding_key(suite, ops, line, msg):
@@ -58,6 +63,10 @@ def finding_key(suite, ops, line, msg):
         fault = run[2] if run else "?"
         return "C17:BreadthFirst:%s-%s" % (fault, cls)
     op = ops[line].split()[0] if line < len(ops) and ops[line].split() else "?"
+    if suite["name"] == "c17seq":
+        names = {"paths": "TraversePaths", "terminals": "AcyclicTraverseTerminals", "nodes": "AcyclicTraverseNodes",
+                 "intermediary": "TraverseIntermediaryPaths", "window": "LimitSkipTracker", "pfloors": "parallelNodeQuery"}
+        return "C17:ops.%s:%s" % (names.get(op, op), cls)
     return "C17:BufferedPipe:%s-%s" % (op, cls)
 
 
@@ -128,7 +137,7 @@ def extra_coverage(ctx, stats):
         "hang_detections": stats.get("branch.bf.hang_detected", 0),
         "unmodelled": ["ops.Operation reader/writer pool, ParallelNodeQuery workers (observation O2: a failing worker does not cancel the range producer)",
                        "pattern.Driver depth/min/max logic, LightweightDriver, FilteredSkipLimit (atomics.Counter)",
-                       "PathFilter / DescentFilter user callbacks of ops.Traversal (nil in the tie)"],
+                       "user filters that read or advance the TraversalContext's LimitSkipTracker themselves (modelled as pure functions of the segment/node); plan.BranchQuery, DepthExceptionHandler"],
     }
     if ctx.tier == "thorough":
         cov.update(race_pass(ctx, stats))
@@ -195,7 +204,7 @@ SPEC = {
         {"name": "c17cpipe", "monitor_suite": "c17pipemon", "keep_prefix": 2, "shrink_budget": 40},
         {"name": "c17bf", "model_suite": "c17bf", "keep_prefix": 2, "shrink_budget": 8},
         {"name": "c17tbf", "monitor_suite": "c17bfmon", "keep_prefix": 2, "shrink_budget": 8},
-        {"name": "c17seq", "model_suite": "c17seq", "keep_prefix": 2, "shrink_budget": 80},
+        {"name": "c17seq", "model_suite": "c17seq", "monitor_suite": "c17seqmon", "keep_prefix": 2, "shrink_budget": 120},
     ],
     "nontrivial": nontrivial,
     "finding_key": finding_key,
@@ -203,14 +212,16 @@ SPEC = {
     "rule": "c17pipe: every script over {sub,read,close,cancel} up to length 5 (quick) / 7 (thorough) + random scripts (3-60 ops, repeated values) + slow-reader "
             "bursts, each ended by close+drain; c17cpipe: concurrent writer/reader bursts and cancel-at-step-i; c17bf/c17tbf: all trees <= 4 nodes x workers 1..3 x "
             "every fault point of {driver error, context cancel, memory limit, context-class driver error while live, context-class driver error after cancel}, + random trees (1-200 nodes, thorough up to 4000; chain/star/bushy/random shapes) x "
-            "workers 1..8 x fault at a random driver call, literal and Descend-built segments; c17seq: random digraphs <= 7 nodes x 4 helpers x 2 directions x skip/limit. "
+            "workers 1..8 x fault at a random driver call, literal and Descend-built segments; c17seq: stars, diamonds, cycles with chords, self loops/parallel edges, random DAGs and digraphs (<= 8 nodes) x the 4 helpers x 2 directions x "
+            "skip in {0,1,2} x limit in {0,1,2,50,-1} x node filter {nil, accept-all, reject early / late / all / random nodes} x descent filter {nil, reject set, depth bound} x "
+            "path filter; model-compared and judged against the plan-defined result (filters first, then the window). "
             "A case is non-trivial when: pipe script with >= 2 submissions and a read or a cancel; any concurrent burst; a traversal of >= 3 segments with >= 2 workers "
-            "or any injected fault; a helper run on a graph with >= 2 edges. distinct = distinct op-line sequences (sha1)",
+            "or any injected fault; a helper query on a graph with >= 2 edges that has a skip/limit window or a rejecting filter. distinct = distinct op-line sequences (sha1)",
     "expected_branches": ["branch.pipe.submit_while_buffered", "branch.pipe.close_with_buffered", "branch.pipe.cancel_with_buffered",
                           "branch.pipe.flush_exit", "branch.pipe.read_empty", "branch.pipe.submit_refused", "branch.pipe.burst",
                           "branch.bf.fault_hit_err", "branch.bf.fault_hit_cancel", "branch.bf.fault_hit_mem", "branch.bf.workers_8",
                           "branch.bf.fault_hit_swallow", "branch.bf.fault_hit_cswallow", "branch.bf.ctx_class_error_reported",
-                          "branch.bf.memlimit"],
+                          "branch.bf.memlimit", "branch.seq.node_filter_rejecting_with_window", "branch.seq.descent_filter", "branch.seq.path_filter"],
     "trusted_base": ["Go channel / select / context / sync/atomic / WaitGroup semantics (modelled as atomic rendezvous and atomic counter ops)",
                      "gammazero/deque (modelled as a list)",
                      "the go/ast order-fact extractor tools/extract/c17order (syntactic; cross-checked by the behavioural tie)",
@@ -235,8 +246,10 @@ MANIFEST = {
             "all workers joined; every step decreases a bound and some step is always enabled until return. The live model is the repaired worker error branch "
             "(finding F14: before the repair a context.Canceled/ErrContextTimedOut-class driver error on a live context hung BreadthFirst; kept as a refutation "
             "theorem about the old definition, and the order-fact tie rejects the old source shape). "
+            "Sequential helpers (TraversePaths, AcyclicTraverseTerminals, AcyclicTraverseNodes, TraverseIntermediaryPaths): for every graph, node/descent/path filter, skip "
+            "and limit the stack loop returns exactly the skip/limit window of the FILTERED DFS candidate sequence (a rejected node never consumes budget); "
             "LimitSkipTracker window and the parallelNodeQuery range partition are proved for all inputs.",
     "note": "Partial: goroutine cleanup and promptness are observed by the harness (NumGoroutine settles, hang detector), not proved; the PathSegment.size roll-up "
-            "race is outside the LTS (counted under -race in the thorough tier); ops.Traversal DFS = path spec is stated but only tested by the tie. Trusted: Lean "
+            "race is outside the LTS (counted under -race in the thorough tier); that the DFS candidate order of TraversePaths equals the recursive path definition is stated but only tested by the tie. Trusted: Lean "
             "kernel, Go channel/select/atomic semantics, the syntactic extractor, the harness.",
 }
